@@ -259,6 +259,8 @@ type c19Op struct {
 	Host   string `json:"host,omitempty"` // lookup
 	Node   int    `json:"node,omitempty"`
 	ViaSrv bool   `json:"via_http,omitempty"` // lookup through ServeHTTP instead of lookupMapping
+	HdrK   string `json:"header,omitempty"`       // lookup via ServeHTTP: an extra request header …
+	HdrV   string `json:"header_value,omitempty"` // … naming some (other) host
 	IDLit  string `json:"id_literal,omitempty"` // delete: a guessed mapping id (ids are sequential) instead of Ref
 	Pin    bool   `json:"pin_node,omitempty"` // keep Node as given (default: node = thread index)
 	Strict bool   `json:"strict,omitempty"`   // lookup judged by the state at its start: everything its own thread completed before it
@@ -380,6 +382,9 @@ func c19Exec(w *c19World, op c19Op, prior []c19Res) c19Res {
 		if op.ViaSrv {
 			req := httptest.NewRequest("GET", "http://placeholder.invalid/p?q=1", nil)
 			req.Host = op.Host
+			if op.HdrK != "" {
+				req.Header.Set(op.HdrK, op.HdrV)
+			}
 			rec := httptest.NewRecorder()
 			n.sm.take()
 			n.mod.ServeHTTP(rec, req)
